@@ -351,6 +351,9 @@ class SeriesOps:
                 self.log("dict-mutation", node, what=name, args=[to_term(p) for p in pos])
                 if name == "update" and pos and isinstance(pos[0], dict):
                     obj.update(pos[0])
+                elif name == "update" and pos and I._concrete_seq(pos[0]) is not None and all(isinstance(x, PyTuple) and len(x.items) == 2 for x in I._concrete_seq(pos[0])):
+                    for x in I._concrete_seq(pos[0]):          # dict.update(iterable of (key, value) pairs)
+                        obj[I._hashable(x.items[0])] = x.items[1]
                 return None
             if name == "copy":
                 return dict(obj)
@@ -474,6 +477,8 @@ class SeriesOps:
             return a0.with_term(t) if isinstance(a0, Ser) else t
         if name == "np.isin" and len(pos) == 2 and isinstance(a0, Ser) and not kw:
             return self.series_method(a0, "isin", [pos[1]], {}, node)
+        if name in ("itertools.count", "count") and len(pos) <= 1 and not kw and (not pos or isinstance(a0, int)):
+            return ("count", a0 if pos else 0)
         if name in ("functools.partial", "partial") and pos and isinstance(a0, (FuncRef, Obj, ClassRef)):
             return Obj(f"partial#{I.new_id()}", attrs={"__partial__": (a0, list(pos[1:]), dict(kw))})
         if name in ("operator.itemgetter", "itemgetter") and len(pos) == 1 and not kw:
@@ -643,6 +648,12 @@ class SeriesOps:
                     and isinstance(a0[1][2], tuple) and len(a0[1][2]) == 2 and a0[1][2][0] == "tuple" and not kw:
                 c = a0[1]
                 return [("comp", "list", b, c[3], c[4]) for b in c[2][1]]
+            # itertools.count(k) next to concrete sequences: the running number
+            if pos and any(isinstance(p, tuple) and len(p) == 2 and p[0] == "count" and isinstance(p[1], int) for p in pos) and \
+                    all((isinstance(p, tuple) and len(p) == 2 and p[0] == "count") or I._concrete_seq(p) is not None for p in pos) and any(I._concrete_seq(p) is not None for p in pos):
+                n_ = min(len(I._concrete_seq(p)) for p in pos if I._concrete_seq(p) is not None)
+                cols_ = [list(range(p[1], p[1] + n_)) if (isinstance(p, tuple) and len(p) == 2 and p[0] == "count") else I._concrete_seq(p)[:n_] for p in pos]
+                return [PyTuple(list(x)) for x in zip(*cols_)]
             if all(I._concrete_seq(p) is not None for p in pos) and pos:
                 return [PyTuple(list(x)) for x in zip(*[I._concrete_seq(p) for p in pos])]
             return ("zip", tuple(self.M.as_ser_term(p) if isinstance(p, Ser) else to_term(p) for p in pos))
